@@ -230,6 +230,11 @@ MIRSYM("bounded_search_wellformed", ["C03", "C20"],
        "nns_by_leaf with any budget search_k in 1..=8 returns at most count results, all distinct, stored, inside the candidate filter, ordered nearest first, each carrying normalized_distance(built_distance); never panics or errs on a valid forest",
        _SEARCH_BOUNDS, _lazy("e2_search"), site="Reader::nns_by_leaf", unlimited=False)
 
+MIRSYM("budget_monotone", ["C03"],
+       "for the same forest, query, count and candidate filter and budgets k1 < k2, nns_by_leaf with k2 returns at least as many results as with k1 and at no rank an item farther than the one k1 returns there (two runs of the real MIR over shared uninterpreted distances and per-split margins; every pair of paths decided by z3)",
+       "forests: split(bucket,bucket), split(item,bucket) (+ split(bucket,item) with a second single-bucket tree), <= 2 items (thorough 3, more shapes) over a 16-id universe; budgets 1..=3 (thorough up to 4); count 0..=4; filter absent or any set; distances/margins arbitrary f32 functions",
+       _lazy("e2_search", "monotone_obligation"), site="Reader::nns_by_leaf")
+
 MIRSYM("tree_steps_under_faults", ["C10"],
        "insert_items_in_file / delete_items_in_file with the cancellation callback answering true from its n-th poll on (n symbolic) and the k-th temp-file write failing (k symbolic): never panic, return only Ok, BuildCancelled (and only after the callback answered true) or the injected error; when they return Ok the C01 contract holds",
        _TREE_BOUNDS + "; cancel point and fault point over the whole u32 range", _lazy("e2_tree", "faults_obligation"),
